@@ -10,6 +10,7 @@
 package main
 
 import (
+	"sync"
 	"bytes"
 	"encoding/json"
 	"fmt"
@@ -79,7 +80,14 @@ func (r *runner) run(plan []fault, dir string, n int, sizes []int, garbageLen in
 			replayAfter[f.After] = append(replayAfter[f.After], f.At)
 		}
 	}
+	var reverse [][]byte // link frames of the opposite direction, as they crossed the wire
+	var revMu sync.Mutex
 	hook := func(p *linkworld.Proxy, m linkworld.Msg) [][]byte {
+		if m.Dir != dir && m.Idx > 3 {
+			revMu.Lock()
+			reverse = append(reverse, append([]byte(nil), m.Data...))
+			revMu.Unlock()
+		}
 		if m.Dir != dir || m.Idx <= 3 {
 			return nil
 		}
@@ -138,6 +146,12 @@ func (r *runner) run(plan []fault, dir string, n int, sizes []int, garbageLen in
 				r.rng.Read(g)
 				g[0], g[1] = byte(len(g)>>8), byte(len(g))
 				out = append([][]byte{g}, out...)
+			case "reflect":
+				revMu.Lock()
+				if len(reverse) > 0 {
+					out = append([][]byte{append([]byte(nil), reverse[len(reverse)-1]...)}, out...)
+				}
+				revMu.Unlock()
 			case "garbage-raw":
 				g := make([]byte, 1+r.rng.Intn(200))
 				r.rng.Read(g)
@@ -166,6 +180,34 @@ func (r *runner) run(plan []fault, dir string, n int, sizes []int, garbageLen in
 		peerLink = res.LinkA
 	}
 	events = append(events, map[string]any{"ev": "link"})
+	for _, f := range plan {
+		if f.Op != "reflect" {
+			continue
+		}
+		// the receiver has traffic of its own: n+4 frames in the opposite direction, recorded on the wire; their
+		// sequence numbers are ahead of anything this direction will have seen when one of them is reflected
+		otherDir := "B"
+		if dir == "B" {
+			otherDir = "A"
+		}
+		for i := 0; i < n+4; i++ {
+			pl := make([]byte, 30+i)
+			r.rng.Read(pl)
+			rf, err := to.Builder.NewFrameV1(to.ID.IP, from.ID.IP, frame.NetworkTraffic, nil, pl, nil)
+			if err != nil {
+				panic(err)
+			}
+			_ = peerLink.Send(rf)
+		}
+		deadline := time.Now().Add(300 * time.Millisecond)
+		for res.Proxy.NSent(otherDir) < 3+n+4 && time.Now().Before(deadline) {
+			time.Sleep(100 * time.Microsecond)
+		}
+		if res.Proxy.NSent(otherDir) < 3+n+4 {
+			r.c.Broken("reflect: the opposite direction carried only %d link frames", res.Proxy.NSent(otherDir)-3)
+		}
+		break
+	}
 	var sent [][]byte
 	var payloads [][]byte
 	bigMode := false
@@ -242,7 +284,7 @@ func (r *runner) run(plan []fault, dir string, n int, sizes []int, garbageLen in
 		if breaksFraming[f.Op] {
 			breaks = true
 		}
-		if f.Op != "dup" && f.Op != "garbage-framed" && f.Op != "garbage-raw" && f.Op != "swap" {
+		if f.Op != "dup" && f.Op != "garbage-framed" && f.Op != "garbage-raw" && f.Op != "swap" && f.Op != "reflect" {
 			touched = append(touched, f.At)
 		}
 		if f.At > lastFault {
@@ -361,18 +403,19 @@ func run(c *vf.Ctx) {
 		queue = queue[1:]
 		for _, ei := range g.Out[s] {
 			t := g.Edges[ei].To
+			var a act
+			_ = json.Unmarshal(g.Edges[ei].Act, &a)
+			pl := planOf[s]
+			if a.Name == "fault" {
+				// two operators may lead to the same model state (well-framed garbage / a reflected frame): both are plans
+				pl = append(append([]fault(nil), pl...), fault{a.Op, a.At, a.After})
+				plans[fmt.Sprint(pl)] = pl
+			}
 			if seen[t] {
 				continue
 			}
 			seen[t] = true
 			parent[t] = ei
-			var a act
-			_ = json.Unmarshal(g.Edges[ei].Act, &a)
-			pl := planOf[s]
-			if a.Name == "fault" {
-				pl = append(append([]fault(nil), pl...), fault{a.Op, a.At, a.After})
-				plans[fmt.Sprint(pl)] = pl
-			}
 			planOf[t] = pl
 			queue = append(queue, t)
 		}
